@@ -123,7 +123,7 @@ def fuse(ctx, lexpr):
                 return ("value", Adt("std::result::Result", 1, [UNK]))
             return None
 
-        S = sim.Sim([lexpr], hooks={"call": hook_err})
+        S = sim.Sim([lexpr], hooks={"call": hook_err}, inline=lex.helper_inline(lexpr))
         paths = [p for p in S.run(f) if p.end == "return"]
         flags = None
         all_some_err = True
@@ -138,7 +138,7 @@ def fuse(ctx, lexpr):
         if flags:
             flag = sorted(flags, key=repr)[0]
             # with the flag set, next() must return None without stepping the parser
-            S2 = sim.Sim([lexpr], hooks={"call": hook_err})
+            S2 = sim.Sim([lexpr], hooks={"call": hook_err}, inline=lex.helper_inline(lexpr))
             ps2 = [p for p in S2.run(f, heap={flag: 1}) if p.end == "return"]
             bad = [p for p in ps2 if p.calls(step) or not (isinstance(p.ret, Adt) and p.ret.variant == 0)]
             if ps2 and not bad:
